@@ -59,15 +59,34 @@ DTYPE = {"taxa_grp": "int64", "vrnt_chrgrp": "int64", "vrnt_phypos": "int64", "v
 SORTKEYS = {"taxa": ["taxa_grp", "taxa"], "vrnt": ["vrnt_chrgrp", "vrnt_phypos"], "trait": ["trait"]}
 
 
+# How integer group ids are spelled in the current case (set by Harness from case["id_scheme"]; pure function of the case):
+#   small    the ids as below
+#   negative shifted so that -1 and 0 occur (codes such as "unplaced"), taxa groups also far below zero
+#   huge     2**60 + id: distinct integers that are NOT distinct after conversion to float64 (spacing 256 there)
+#   edge     spread towards both ends of int64
+ID_SCHEME = {"taxa_grp": "small", "vrnt_chrgrp": "small"}
+
+
+def _spell_id(label, v):
+    sch = ID_SCHEME.get(label, "small")
+    if sch == "negative":
+        return v - 2 if v < 300 else -(2 ** 40) - v
+    if sch == "huge":
+        return 2 ** 60 + v
+    if sch == "edge":
+        return (-(2 ** 63) + v) if v % 2 == 0 else (2 ** 63 - 1 - v)
+    return v
+
+
 def label_value(label, eid, dup):
     """label of entity `eid`; dup=True draws names from a small alphabet so labels are duplicated across entities"""
     if label == "taxa":
         return "t%02d" % (eid % 3) if dup else "t%03d" % eid
     if label == "taxa_grp":
         # every fifth entity belongs to a group whose id does not fit a narrow integer dtype
-        return 300 + (eid * 7) % 700 if eid % 5 == 4 else (eid * 5) % 3
+        return _spell_id(label, 300 + (eid * 7) % 700 if eid % 5 == 4 else (eid * 5) % 3)
     if label == "vrnt_chrgrp":
-        return (eid * 7) % 3 + 1
+        return _spell_id(label, (eid * 7) % 3 + 1)
     if label == "vrnt_phypos":
         return (eid * 11) % 7 + 1 if dup else (eid * 11) % 97 + 1
     if label == "vrnt_name":
@@ -241,7 +260,9 @@ def program(draw, families):
                "deep": draw(st.booleans())}
         steps.append(stp)
     return {"family": famname, "sizes": sizes, "present": present, "dup": draw(st.booleans()), "steps": steps,
-            "narrow": draw(st.sampled_from([False, False, True]))}
+            "narrow": draw(st.sampled_from([False, False, True])),
+            "id_scheme": {"taxa_grp": draw(st.sampled_from(["small", "small", "small", "negative", "huge", "edge"])),
+                          "vrnt_chrgrp": draw(st.sampled_from(["small", "small", "small", "negative", "huge", "edge"]))}}
 
 
 # ------------------------------------------------------------------------------------------------------------------
@@ -287,6 +308,9 @@ def describe(obj):
 class Harness:
     def __init__(self, case, ctx):
         self.case, self.ctx = case, ctx
+        sch = case.get("id_scheme") or {}
+        for lb in ID_SCHEME:
+            ID_SCHEME[lb] = sch.get(lb, "small")
         self.fam = FAMILIES[case["family"]]
         self.dup = case["dup"]
         self.present = dict(case["present"])
@@ -298,6 +322,9 @@ class Harness:
             self.elems[k] = [self.fresh(k) for _ in range(n)]
         self.x = make_matrix(self.fam, self.elems, self.present, self.dup, narrow=bool(case.get("narrow")) and not self.fam.square)
         self.ctx.label("narrow_group_dtype", bool(case.get("narrow")) and self.x.taxa_grp is not None and self.x.taxa_grp.dtype == numpy.dtype("int8")) if "taxa" in self.fam.labelled and not self.fam.square else None
+        for lb, kind in (("taxa_grp", "taxa"), ("vrnt_chrgrp", "vrnt")):
+            if kind in self.fam.labelled and self.present.get(lb):
+                self.ctx.label("id_scheme:%s=%s" % (lb, ID_SCHEME[lb]))
         self.trace = []
         self.ancestors = []
 
